@@ -5,6 +5,7 @@ import rk
 import tast
 import mon
 from poly import Poly, DEFS, reaches
+from symx import FACTS
 from protocol import SOLVERS, SOLOUT, solve_fn, main_loop_of, is_solout_iflet
 
 SUCCESS = "def:status::Status::Success"
@@ -758,3 +759,53 @@ def r_crange_all(rep, f):
                 rep.inconc("R-AFF-CRANGE", key, "no in-loop stage evaluation analysed")
             else:
                 rep.ok("R-AFF-CRANGE", key, "stage abscissae tau in %s over %d path variant(s)" % (sorted(float(t) for t in taus), len(variants)))
+
+
+# ------------------------------------------------------------------------------------------ R-LAND-FINISH
+def r_land_finish(rep, f):
+    """The iteration whose accepted step lands on xend ends the run there: it must not go round the loop again.  A solver that
+    leaves the decision to the next loop head runs its budget and step-size tests first - with x already on xend they report
+    NeedLargerNMax (max_steps equal to the steps needed) or StepSizeTooSmall (nothing left to step over) for a run that
+    covered the interval.  Symbolically: no path variant has an end-of-iteration state with x == xend."""
+    n_land = 0
+    for mod, ty in SOLVERS:
+        fn = solve_fn(mod, ty)
+        body = f.body(fn)
+        xend = xend_atom(body)
+        key = "R-LAND-FINISH:%s" % fn
+        try:
+            variants = rk.analyse_variants(f, fn)
+        except rk.AnalysisError as e:
+            rep.inconc("R-LAND-FINISH", key, str(e))
+            continue
+        if xend is None:
+            continue
+        bad, lands = None, 0
+        for tag, sx, hk in variants:
+            lands += sum(1 for r in hk.solout_calls if r["in_main"] and isinstance(r["x"], Poly) and r["x"] == xend)
+            for L in (hk.latch or []):
+                xl = L.get(hk.xkey)
+                if isinstance(xl, Poly) and xl == xend and bad is None:
+                    # a state that got here on the false edge of `x == xend` (or the true edge of `!=`) with x IS xend does not exist
+                    infeasible = False
+                    for c_, t_ in L.get(FACTS, frozenset()):
+                        a_ = c_.single_atom() if isinstance(c_, Poly) else None
+                        d_ = DEFS.get(a_) if a_ else None
+                        if d_ and d_[0] in ("eq", "ne") and len(d_[1]) == 2 and all(isinstance(q, Poly) for q in d_[1]):
+                            same = d_[1][0] == d_[1][1]
+                            if same and ((d_[0] == "eq" and not t_) or (d_[0] == "ne" and t_)):
+                                infeasible = True
+                    if not infeasible:
+                        bad = tag
+        n_land += lands
+        if bad:
+            rep.violation("R-LAND-FINISH", key, "an iteration that advanced x to xend reaches the end of the loop body and starts another iteration (path variant %s): the "
+                          "tests at the loop head (step budget, step-size underflow) run before completion is noticed and can end a run that covered the interval with "
+                          "NeedLargerNMax or StepSizeTooSmall" % bad, body.get("sp"))
+        elif lands == 0:
+            rep.note("R-LAND-FINISH %s: no path variant hands x == xend to the callback symbolically (completion decided otherwise)" % fn)
+            rep.ok("R-LAND-FINISH", key, "no end-of-iteration state with x == xend", nontrivial=False)
+        else:
+            rep.ok("R-LAND-FINISH", key, "%d landing variant(s): none reaches the end of the loop body" % lands)
+    if n_land < 4:
+        rep.inconc("R-LAND-FINISH", "R-LAND-FINISH:floor", "only %d landing variants found over all solvers (expected >= 4)" % n_land)
